@@ -99,6 +99,10 @@ def doc_pool():
         "Scenarist_SCC V1.0\n\n00:00:01:00\t9420 9420 94ae 94ae " + C.chars("n", "o") + " " + C.chars("E") + " " + C.extended(0x12, 0x21) + " " + C.extended(0x12, 0x21) + " 942f 942f\n",
         # roll-up stream cut off without a final carriage return
         "Scenarist_SCC V1.0\n\n00:00:01:00\t9425 94ad 1370 " + C.chars("r", "u") + "\n\n00:00:02:00\t94ad 1370 " + C.chars("l", "a") + "\n",
+        # italic words closed by a mid-row code that is directly followed by punctuation (twice in one caption, and again in
+        # the next one): the blank of the mid-row code is handled specially there
+        "Scenarist_SCC V1.0\n\n00:00:01:00\t94ae 9420 9470 " + " ".join([C.MR_ITALIC] + C.text_words("good") + [C.MR_PLAIN] + C.text_words(". Then") + [C.MR_ITALIC] + C.text_words("fine") + [C.MR_PLAIN] + C.text_words("!"))
+        + " 942f\n\n00:00:05:00\t94ae 9420 9470 " + " ".join([C.MR_ITALIC] + C.text_words("last") + [C.MR_PLAIN] + C.text_words(", end")) + " 942f\n\n00:00:09:00\t942c\n",
     ]
     _pool = p
     return p
